@@ -227,15 +227,15 @@ func blankOnly() []spelled {
 // ---- items and cases -------------------------------------------------------------------------------------------
 
 type spItem struct {
-	It    itemSpec `json:"item"`                // as sent
-	Canon itemSpec `json:"canonical"`           // reading (B): the spelled field replaced by its canonical value
-	Field string   `json:"field,omitempty"`     // spelled field: route | route-hint | target | id | selector ("" = nothing spelled)
-	Class string   `json:"class,omitempty"`     // spelling class
-	Of    string   `json:"spelling_of"`         // canonical value of the spelled field
-	Forms []string `json:"forms,omitempty"`     // id only: partly normalised forms of a composite spelling
-	Name  string   `json:"name"`                // kind-like name for labels
-	Group string   `json:"flavour,omitempty"`   // flavour of the canonical value (coverage classes only)
-	What  string   `json:"content,omitempty"`   // content variant (coverage classes only)
+	It    itemSpec `json:"item"`              // as sent
+	Canon itemSpec `json:"canonical"`         // reading (B): the spelled field replaced by its canonical value
+	Field string   `json:"field,omitempty"`   // spelled field: route | route-hint | target | id | selector ("" = nothing spelled)
+	Class string   `json:"class,omitempty"`   // spelling class
+	Of    string   `json:"spelling_of"`       // canonical value of the spelled field
+	Forms []string `json:"forms,omitempty"`   // id only: partly normalised forms of a composite spelling
+	Name  string   `json:"name"`              // kind-like name for labels
+	Group string   `json:"flavour,omitempty"` // flavour of the canonical value (coverage classes only)
+	What  string   `json:"content,omitempty"` // content variant (coverage classes only)
 }
 
 type spellDesc struct {
@@ -320,7 +320,7 @@ func runSpellCase(e *env, ps pathSpec, sd spellDesc, tl *tally, rd readings) ([]
 	}
 	accA, accB := make([]bool, n), make([]bool, n)
 	whyB := make([][]string, n)
-	idForms := make([][]string, n)      // id-spelled items: the forms the id may be stored under (raw, partly normalised, canonical)
+	idForms := make([][]string, n)         // id-spelled items: the forms the id may be stored under (raw, partly normalised, canonical)
 	idFormOK := make([]map[string]bool, n) // ... and whether the item is acceptable with that id
 	earlier := map[string]bool{}
 	spelledAt, spelledCount := -1, 0
@@ -625,7 +625,7 @@ func sortedRoutes() []string {
 	return rs
 }
 
-var edgeHeaders = map[string]string{"X-Abcdefghijklmn": "0123456789abcdef"}   // 32 bytes = max_headers
+var edgeHeaders = map[string]string{"X-Abcdefghijklmn": "0123456789abcdef"}  // 32 bytes = max_headers
 var overHeaders = map[string]string{"X-Abcdefghijklmn": "0123456789abcdefg"} // 33 bytes
 
 // routeContents: content variants of an item addressed to canonical route r (global path).
@@ -1034,7 +1034,7 @@ func spellUnits(thorough bool) []spellUnit {
 	def := policies[0]
 	global, ep1, ep2 := mustPath("global"), mustPath("scoped:ep1"), mustPath("scoped:ep2")
 	itemPolicies := []string{"allow-pull-routes-off", "allow-deliver-routes-off"} // judged per item on the global path
-	requestPolicies := []string{"direct-off", "actor-allow:other-actor"}           // refuse the request whatever it holds
+	requestPolicies := []string{"direct-off", "actor-allow:other-actor"}          // refuse the request whatever it holds
 	urlPaths := []string{"global", "scoped:ep1", "scoped:ep2", "scoped:epoff", "scoped:epdir", "scoped:unknown"}
 	urlPolicies := []string{"default", "direct-off", "managed-off", "actor-allow:other-actor", "require-actor:missing", "no-audit-reason"}
 	idPres := []preState{holds, mustPre("full/drop_oldest"), mustPre("one-free-slot/reject")}
